@@ -7,6 +7,7 @@
 #define HV_VIRTUAL_CLOCK
 #include "common.hpp"
 #include <dlfcn.h>
+#include <sys/uio.h>
 #include <fcntl.h>
 #include <cstdarg>
 #include <sys/wait.h>
@@ -30,6 +31,18 @@ ssize_t write(int fd, const void* b, size_t n) {
     if (g_crash_countdown == 1 && n > 1 && fd > 2) { real<ssize_t (*)(int, const void*, size_t)>("write")(fd, b, n / 2); ::_exit(77); }
     if (fd > 2) crash_point();
     return real<ssize_t (*)(int, const void*, size_t)>("write")(fd, b, n);
+}
+// libstdc++ hands a large ofstream::write to writev: the same crash points (before it, and half way through it)
+ssize_t writev(int fd, const struct iovec* iov, int cnt) {
+    auto w = real<ssize_t (*)(int, const void*, size_t)>("write");
+    size_t total = 0; for (int i = 0; i < cnt; ++i) total += iov[i].iov_len;
+    if (g_crash_countdown == 1 && total > 1 && fd > 2) {
+        size_t left = total / 2;
+        for (int i = 0; i < cnt && left > 0; ++i) { const size_t k = std::min(left, iov[i].iov_len); w(fd, iov[i].iov_base, k); left -= k; }
+        ::_exit(77);
+    }
+    if (fd > 2) crash_point();
+    return real<ssize_t (*)(int, const struct iovec*, int)>("writev")(fd, iov, cnt);
 }
 int unlink(const char* p) { crash_point(); return real<int (*)(const char*)>("unlink")(p); }
 int remove(const char* p) { crash_point(); return real<int (*)(const char*)>("remove")(p); }
